@@ -153,6 +153,12 @@ fn rename_inputs() -> Vec<String> {
     for l in [58usize, 59, 60, 61, 62, 63] {
         v.push(format!("{}._t._tcp.local.", "n".repeat(l)));
     }
+    // counting up: bases (with spaces and parentheses inside) x existing suffix shapes
+    for b in ["x", "a (2)", "a b", " ", "a (", "a)"] {
+        for sfx in ["", " (2)", " (9)", " (10)", " (99)", " (a)", " (2)x", " (4294967295)", " ((2))", " (2) (3)", " ()", " (-1)", " (02)"] {
+            v.push(format!("{b}{sfx}._t._tcp.local."));
+        }
+    }
     // a multi-byte character at every offset around the place where a long label is cut to make
     // room for the suffix, for labels of 56..63 bytes, without and with an existing " (9)" / " (99)"
     for l in multibyte_labels(" (9)", " (99)") {
@@ -193,7 +199,50 @@ fn rename_hosts() -> Vec<String> {
     for l in multibyte_labels("-9", "-99") {
         v.push(format!("{l}.local."));
     }
+    // counting up: bases with hyphens inside x existing suffix shapes
+    for b in ["h", "my-host", "a-b-c", "x-", "-", "a-2-b"] {
+        for sfx in ["", "-2", "-9", "-10", "-99", "-x", "-4294967295", "-4294967294", "--2", "-2-", "-02", "-2-2"] {
+            v.push(format!("{b}{sfx}.local."));
+        }
+    }
     v
+}
+
+/// Reference for the counting rule of the statement: instance 'x' -> 'x (2)' -> 'x (3)' ..., host
+/// 'h' -> 'h-2' -> 'h-3' ...; a suffix that is not a number that can be incremented is kept and a new
+/// one appended; the base is shortened at a character boundary so that the label stays <= 63 bytes.
+fn ref_rename_label(label: &str, is_host: bool) -> String {
+    fn cut(base: &str, suffix: &str) -> String {
+        let mut end = base.len().min(63usize.saturating_sub(suffix.len()));
+        while !base.is_char_boundary(end) {
+            end -= 1;
+        }
+        format!("{}{}", &base[..end], suffix)
+    }
+    if is_host {
+        if let Some(pos) = label.rfind('-') {
+            if let Ok(nr) = label[pos + 1..].parse::<u32>() {
+                if let Some(next) = nr.checked_add(1) {
+                    return cut(&label[..pos], &format!("-{next}"));
+                }
+            }
+        }
+        cut(label, "-2")
+    } else {
+        if let Some(pos) = label.rfind(" (") {
+            let rest = &label[pos + 2..];
+            if let Some(num) = rest.strip_suffix(')') {
+                if !num.contains(')') {
+                    if let Ok(nr) = num.parse::<u32>() {
+                        if let Some(next) = nr.checked_add(1) {
+                            return cut(&label[..pos], &format!(" ({next})"));
+                        }
+                    }
+                }
+            }
+        }
+        cut(label, " (2)")
+    }
 }
 
 fn first_label_len(name: &str) -> usize {
@@ -227,6 +276,16 @@ fn run_l2(i: u64) -> CaseResult {
                     format!("C08|L|renamed-name-not-encodable|{}", if is_host { "host" } else { "instance" }),
                     format!("{:?} ({} bytes) -> first label of {} bytes", truncate(&input, 80), first_label_len(&input), first_label_len(&out)),
                 ));
+            }
+            // the counting rule itself (names without escapes: the first label ends at the first dot)
+            if !input.contains('\\') {
+                if let Some((first, rest)) = input.split_once('.') {
+                    let want = format!("{}.{}", ref_rename_label(first, is_host), rest);
+                    if out != want {
+                        res.viols.push(viol(format!("C08|L|rename-differs-from-the-counting-rule|{}", if is_host { "host" } else { "instance" }), format!("{input:?} -> {out:?}, expected {want:?}")));
+                    }
+                    res.count("renames_compared_with_the_counting_rule", 1);
+                }
             }
             res.count("renames_checked", 1);
         }
@@ -612,6 +671,7 @@ pub fn check(tier: &str) -> i32 {
     rep.require("L-tiebreak-pairs", "decided");
     rep.require("S-two-daemons-one-name", "runs_with_all_announced");
     rep.require("S-two-daemons-one-name", "renames_observed");
+    rep.require("L-rename-functions", "renames_compared_with_the_counting_rule");
     rep.require("S-scripted-conflicts", "announced_after_conflict");
     rep.require("S-scripted-conflicts", "old_instance_name_asked_after_rename");
     rep.require("S-two-daemons-one-name", "old_instance_name_asked_after_rename");
